@@ -1,13 +1,19 @@
 //! C09: 3 threads (main included) each call `Arc::try_unwrap` on their own handle to one value.
 //! At most one may win; a loser gets its handle back and drops it.  Moved out once or destroyed
 //! once: exactly one destructor run per value (checked by Tally::finish), and a winner's reads of
-//! the moved-out value are ordered after every loser's reads.
+//! the moved-out value are ordered after every loser's reads.  Rounds differ in how the racers
+//! are staggered (round % 3 yields per thread index).
 use litmus::*;
 use std::sync::atomic::{AtomicUsize, Ordering::Relaxed};
 use triomphe::Arc;
 
-fn racer(h: Arc<Payload>, tag: u64, winners: &AtomicUsize) {
+fn racer(h: Arc<Payload>, tag: u64, winners: &AtomicUsize, delay: usize) {
     h.read_expect(tag);
+    // stagger the racers in some rounds (yields only: no synchronisation), so that late racers
+    // tend to find the early ones gone and win
+    for _ in 0..delay {
+        spin();
+    }
     match Arc::try_unwrap(h) {
         Ok(mut v) => {
             winners.fetch_add(1, Relaxed);
@@ -25,7 +31,7 @@ fn racer(h: Arc<Payload>, tag: u64, winners: &AtomicUsize) {
 
 fn main() {
     let mut t = Tally::new();
-    for r in 0..rounds(4) {
+    for r in 0..rounds(6) {
         let tag = 500 + r as u64;
         let a = Arc::new(Payload::new(tag));
         t.shared(3);
@@ -33,11 +39,11 @@ fn main() {
         let winners = AtomicUsize::new(0);
         let d0 = drops();
         std::thread::scope(|s| {
-            for h in others {
+            for (i, h) in others.into_iter().enumerate() {
                 let w = &winners;
-                s.spawn(move || racer(h, tag, w));
+                s.spawn(move || racer(h, tag, w, (i + 1) * (r % 3)));
             }
-            racer(a, tag, &winners);
+            racer(a, tag, &winners, 0);
         });
         check(winners.load(Relaxed) <= 1, "two racing try_unwrap calls both moved the value out");
         check(drops() - d0 == 1, "value neither moved out once nor destroyed once");
